@@ -25,7 +25,8 @@ Enumerated:
          concatenation with itself, through a temporary outer array, element-wise + in its three forms)
        x which of the two dies first and how (derived dies in a callee frame, source dies in a callee frame, derived /
          source variable overwritten, source never held by anything but the operand stack, both alive as control)
-       x array length (3 in the quick tier; 0, 1, 3, 9 = beyond the initial capacity of 8 in the thorough tier);
+       x array length (3 and 9 = beyond the initial capacity of 8 in the quick tier; 0, 1, 3, 9 in the thorough tier,
+         which also applies every ordered pair of derivations one after the other at length 3);
      after the death: allocation churn of the same size classes, then EVERY element of what remains is read and
      printed: the printed lines must be the values the case built (computed here in Python).
   T  value shapes, access on a value nothing else references: access form (struct field / its string neighbour,
@@ -522,8 +523,21 @@ def p_case(name, pname, kname, dname, order, n, seed):
             "dims": ("P", pname, kname, dname, order, n)}
 
 
+def _compose(d1, d2):
+    """derived value of a derived value: d2 applied to d1's result"""
+    k1, e1, py1, n1 = DERIVED[d1]
+    k2, e2, py2, n2 = DERIVED[d2]
+    kinds = k1 if k2 is None else k2 if k1 is None else tuple(x for x in k1 if x in k2)
+    return (kinds, e2.replace("{v}", e1), lambda k, e: py2(k, py1(k, e)), n1 + n2)
+
+
 def p_cases(tier):
-    lens = (3,) if tier == "quick" else (0, 1, 3, 9)
+    lens = (3, 9) if tier == "quick" else (0, 1, 3, 9)
+    if tier != "quick":      # two derivation steps (every ordered pair) at length 3
+        for d1 in list(DERIVED):
+            for d2 in list(DERIVED):
+                if "+" not in d1 and "+" not in d2:
+                    DERIVED.setdefault(d1 + "+" + d2, _compose(d1, d2))
     out = []
     for n in lens:
         for pname, (pk, _b, _py, _n) in PRODUCERS.items():
@@ -532,6 +546,8 @@ def p_cases(tier):
                     continue
                 for dname, (dk, _e, _dpy, _dn) in DERIVED.items():
                     if dk is not None and k.name not in dk:
+                        continue
+                    if "+" in dname and n != 3:
                         continue
                     for order in ORDERS:
                         out.append((pname, k.name, dname, order, n))
@@ -1045,7 +1061,7 @@ def run(tier):
     rep.coverage["shape_cases_failing"] = sum(len(v) for v in vbad.values())
     for c in (vcases[npc // 3], vcases[npc + ntc // 2]):
         rep.sample({"shape_case": c["desc"], "function": c["text"], "must_print": c["expect"]})
-    if tier == "quick" and (npc < 8000 or ntc < 3000) or tier != "quick" and (npc < 30000 or ntc < 3000):
+    if tier == "quick" and (npc < 17000 or ntc < 3000) or tier != "quick" and (npc < 140000 or ntc < 3000):
         raise common.HarnessError("value-shape layers smaller than expected: P=%d T=%d" % (npc, ntc))
     if not vbad and (vlines < 5 * len(vcases) or len(vdistinct) < 2000):
         raise common.HarnessError("value-shape layers look vacuous: %d lines compared, %d distinct" % (vlines, len(vdistinct)))
@@ -1097,7 +1113,7 @@ def run(tier):
                           "live objects grow with the iteration count although every value dies each iteration: loop body %s: peak live objects %d after 64 iterations, %d after 512" % (culprit, p64, p512),
                           "# heap_probe live 50000000 <module compiled from program_K64.nano / program_K512.nano>; compare peak_live")
     # ---- leak family: every value-shape case as a loop body (all its values die when the call returns)
-    LK = (16, 128)
+    LK = (8, 64)
     LB = 40
     ljobs, lbatches = [], []
     for bi in range(0, len(vcases), LB):
@@ -1187,7 +1203,7 @@ def run(tier):
         "heap op alphabet of %d statements, sequences <= %s; enumerator layers A/D/F/S; churn: %d loop bodies at 64 and 512 iterations" % (len(OPS), "2 (+3 over a 12-statement core)" if tier == "quick" else "3 (+4 over a 9-statement core)", len(cseqs)),
         "value shapes P: %d array producers x %d element kinds x %d derived values x %d death orders x lengths %s = %d cases (element-wise forms only for the kinds they are typed for); "
         "T: %d access forms (%d fixed + first/last element of every producer's result) x kinds x %d holders x %d sinks = %d cases after removing what the front end cannot type"
-        % (len(PRODUCERS), len(KINDS), len(DERIVED), len(ORDERS), "3" if tier == "quick" else "0,1,3,9", npc, len(ACCESS) + 2 * len(PRODUCERS), len(ACCESS), len(HOLDERS), len(SINKS), ntc),
+        % (len(PRODUCERS), len(KINDS), len(DERIVED), len(ORDERS), "3,9" if tier == "quick" else "0,1,3,9 (two-step derived values, every ordered pair, at length 3)", npc, len(ACCESS) + 2 * len(PRODUCERS), len(ACCESS), len(HOLDERS), len(SINKS), ntc),
         "value shapes: every case prints every element / the extracted value after allocation churn; the %d printed lines are compared with values computed in Python from the case's seed (string contents encode the seed); "
         "the runs are ASan runs, so a read of freed memory aborts rather than printing other data - the comparison additionally catches values that are valid objects but the wrong ones" % vlines,
         "not expressible in the accepted language, hence not enumerated: array_concat (unknown to the type checker; a user-level push loop stands in), range as a value (only the range of a for loop; "
